@@ -10,6 +10,7 @@ import numpy as np
 from hypothesis import strategies as st
 
 from vf import build, gen, geom, trees
+from vf import core
 from vf.core import Violation, exc_sig
 
 ID = "C05"
@@ -28,7 +29,7 @@ ASSUMPTIONS = [
     "tolerance 1e-9 of the sum of single magnitudes for sums; 1e-12 for power-of-two scaling; 1e-10 for additivity",
 ]
 
-CLASSES = gen.FIELD_CLASSES
+CLASSES = gen.ALL_SOURCES
 
 
 def budget(tier):
@@ -80,7 +81,7 @@ def sum_case(draw):
     if draw(st.integers(0, 2)) == 0:
         # family mode: all leaves are variants of one source (same class, most numbers shared)
         base = draw(gen.source_spec(classes=["TriangularMesh", "TriangularMesh", "Polyline", "Tetrahedron", "Cuboid",
-                                             "CylinderSegment", "Triangle", "Cylinder"], max_path=4, L=1.0, pos_extent=1.0))
+                                             "CylinderSegment", "Triangle", "Cylinder", "CustomSource"], max_path=4, L=1.0, pos_extent=1.0))
         if base["cls"] == "TriangularMesh" and draw(st.booleans()):
             base.update(draw(gen.mesh_geometry(L=1.0, kinds=("box",))))
         leaf = st.one_of(gen.variant_of(base), gen.variant_of(base), st.just(base).flatmap(lambda b: gen.pose_path(max_len=4, extent=1.0).map(lambda pp: {**b, **pp})))
@@ -109,8 +110,8 @@ def sum_case(draw):
 
 @st.composite
 def linear_case(draw):
-    spec = draw(gen.source_spec(classes=CLASSES, max_path=2, L=1.0, pos_extent=1.0))
-    obs = draw(gen.region_observers(spec, n_min=2, n_max=6))
+    spec = draw(gen.source_spec(classes=gen.FIELD_CLASSES, max_path=2, L=1.0, pos_extent=1.0))
+    obs = draw(gen.region_observers(spec, n_min=2, n_max=6, regions="well_conditioned"))
     akind = draw(st.sampled_from(["pow2", "pow2", "generic", "zero", "neg1"]))
     if akind == "pow2":
         k = draw(st.integers(-40, 40))
@@ -213,17 +214,17 @@ def _run_sum(case, ctx):
             # the explicit sum itself moves
             noise = np.zeros_like(ref)
             for ax in range(3):
-                for sg in (1.0, -1.0):
+                for sg in core.NOISE_STEPS:
                     shifted = []
                     for o in case["observers"]:
                         if o["cls"] == "array":
                             v = np.array(o["value"], dtype=float)
-                            v[ax] += sg * 8 * np.finfo(float).eps * max(float(np.max(np.abs(v))), 1e-300)
+                            v[ax] += sg * max(float(np.max(np.abs(v))), 1e-300)
                             shifted.append(v)
                         else:
                             o2 = dict(o)
                             P = np.array(o["position"], dtype=float)
-                            P[:, ax] += sg * 8 * np.finfo(float).eps * np.maximum(np.max(np.abs(P), axis=1), 1e-300)
+                            P[:, ax] += sg * np.maximum(np.max(np.abs(P), axis=1), 1e-300)
                             o2["position"] = P.tolist()
                             shifted.append(build.build_sensor(o2))
                     try:
@@ -312,9 +313,9 @@ def _run_linear(case, ctx):
         s0 = _set_exc(spec, x.tolist() if np.ndim(x) else float(x))
         src = build.build_source(s0)
         for ax in range(3):
-            for sg in (1.0, -1.0):
+            for sg in core.NOISE_STEPS:
                 d = np.zeros_like(obs)
-                d[:, ax] = sg * 8 * np.finfo(float).eps * mag[:, 0]
+                d[:, ax] = sg * mag[:, 0]
                 r = build.call(fn, src, obs + d, squeeze=False)
                 if r.ok:
                     sp = np.maximum(sp, np.abs(np.asarray(r.value) - base))
